@@ -14,7 +14,7 @@ def gen(rng, i):
     at = rng.choice([100, 100, 200])
     around = [0, at - 1, at, at, at + 1, at + 50]
     return {"entry": entry, "how": rng.choice(["value", "value", "exc", "xcancel", "never"]), "at": at,
-            "cancellable": rng.random() < 0.6,
+            "cancellable": rng.random() < 0.6, "cb_raise_first": rng.random() < 0.3,
             "cancels": sorted(rng.sample(around, rng.choice([0, 1, 1, 2]))),
             "cbs": sorted(rng.sample(around, rng.choice([1, 2, 2]))),
             "waits": [[rng.choice([0, at - 1, at, at + 1]), rng.choice(["result", "exception", "wait", "as_completed"])]
@@ -33,4 +33,22 @@ def run(ck):
         tasks.append({"scen": "futproto", "params": p, "strat": strat, "gran": "line" if i % 4 == 0 else "sync",
                       "facts": {"entry": p["entry"], "how": p["how"], "cancelled_by_user": bool(p["cancels"])}})
     ck.run_and_validate(tasks, TRACE)
+    # directed schedules with two preemptions (line granularity): thread A runs n steps, thread B m steps, then A to
+    # its end, then B - for completer / callback adder / canceller pairs; this places B's critical step at every point
+    # of A's completion path and vice versa (windows a few source lines wide)
+    tasks = []
+    entries = ["map", "flat_map", "retry", "poll", "throttle", "timeout", "f_map", "f_zip", "f_or", "f_nocancel"]
+    pairs = [("env1", "add0"), ("add0", "env1"), ("env1", "can0"), ("can0", "env1"), ("can0", "add0")]
+    ns = range(2, 46, 3 if quick else 1)
+    ms = range(3, 13, 3 if quick else 1)
+    for e in entries:
+        for a, b in pairs:
+            for n in ns:
+                for m in ms:
+                    p = {"entry": e, "how": "value", "at": 100, "cancellable": True,
+                         "cancels": [100] if "can0" in (a, b) else [], "cbs": [100], "waits": [[0, "result"]],
+                         "horizon": 800}
+                    tasks.append({"scen": "futproto", "params": p, "strat": ["phases", [[a, n], [b, m], [a, 10000]]],
+                                  "gran": "line", "facts": {"entry": e, "how": "value", "directed": True}})
+    ck.run_and_validate(tasks, TRACE, nontrivial=lambda t, r: True)
     ck.assumptions += ["one future per execution, 20 entry points, clients: <=2 cancellers, <=2 callback adders, <=2 waiters"]
